@@ -58,21 +58,23 @@ BitLen(x) == IF x = 0 THEN 0 ELSE 1 + BitLen(x \div 2)
 S6K(n) == IF n <= 1 THEN 0 ELSE BitLen(n - 1)            \* bits needed to represent n-1
 (* the reading machine of the format description: state (v, edges), one (b, x) pair at a time;
    an incomplete pair at the end is discarded; reading stops when v would leave 0..n-1 *)
-RECURSIVE S6Read(_, _, _, _, _, _)
-S6Read(bits, pos, k, n, v, E) ==
-    IF pos + k > Len(bits) THEN E
+RECURSIVE S6ReadL(_, _, _, _, _, _, _)
+S6ReadL(bits, pos, k, n, v, E, loop) ==            \* loop: a pair {v, v} was read (sparse6 can express loops; a simple graph has none)
+    IF pos + k > Len(bits) THEN [E |-> E, loop |-> loop]
     ELSE LET b == bits[pos]
              x == ValOf(SubSeq(bits, pos + 1, pos + k))
              v1 == IF b = 1 THEN v + 1 ELSE v IN
-         IF v1 >= n THEN E
-         ELSE IF x > v1 THEN (IF x >= n THEN E ELSE S6Read(bits, pos + k + 1, k, n, x, E))
-         ELSE S6Read(bits, pos + k + 1, k, n, v1, IF x = v1 THEN E ELSE E \cup {{x, v1}})
+         IF v1 >= n THEN [E |-> E, loop |-> loop]
+         ELSE IF x > v1 THEN (IF x >= n THEN [E |-> E, loop |-> loop] ELSE S6ReadL(bits, pos + k + 1, k, n, x, E, loop))
+         ELSE S6ReadL(bits, pos + k + 1, k, n, v1, IF x = v1 THEN E ELSE E \cup {{x, v1}}, loop \/ x = v1)
+S6Read(bits, pos, k, n, v, E) == S6ReadL(bits, pos, k, n, v, E, FALSE).E
 (* bytes include the leading ':' *)
 S6Decode(bytes) ==
-    IF Len(bytes) < 2 \/ bytes[1] # 58 \/ ~InRange(SubSeq(bytes, 2, Len(bytes))) THEN [ok |-> FALSE, G |-> Empty(0)]
+    IF Len(bytes) < 2 \/ bytes[1] # 58 \/ ~InRange(SubSeq(bytes, 2, Len(bytes))) THEN [ok |-> FALSE, G |-> Empty(0), loop |-> FALSE]
     ELSE LET h == ReadN(bytes, 2) IN
-         IF ~h.ok \/ h.big THEN [ok |-> FALSE, G |-> Empty(0)]
-         ELSE [ok |-> TRUE, G |-> [n |-> h.n, E |-> S6Read(UnR(SubSeq(bytes, h.next, Len(bytes))), 1, S6K(h.n), h.n, 0, {})]]
+         IF ~h.ok \/ h.big THEN [ok |-> FALSE, G |-> Empty(0), loop |-> FALSE]
+         ELSE LET r == S6ReadL(UnR(SubSeq(bytes, h.next, Len(bytes))), 1, S6K(h.n), h.n, 0, {}, FALSE) IN
+              [ok |-> TRUE, G |-> [n |-> h.n, E |-> r.E], loop |-> r.loop]
 S6HeaderOK(bytes, n) == Len(bytes) >= 2 /\ bytes[1] = 58 /\ LET h == ReadN(bytes, 2) IN h.ok /\ ~h.big /\ h.n = n
                         /\ SubSeq(bytes, 2, h.next - 1) = NBytes(n)
 
